@@ -4,6 +4,7 @@ CONSTANTS
   NK = 3
   NST = 3
   NSU = 2
+  EmptyKey = 2
   MaxConn = 10
   MaxOps = 0
   Amounts = {0}
